@@ -131,7 +131,13 @@ func (g *pathGen) step(d int, first bool) jast.Node {
 		s = &jast.Var{Name: "v"}
 	case k == 14:
 		g.tags["paren-step"] = true
-		s = &jast.Block{Exprs: []jast.Node{g.subPath(d)}}
+		sp := g.subPath(d)
+		if r.Bool() {
+			// a keep-array marker inside the parentheses belongs to the sub-path only
+			g.tags["paren-step:with-marker-inside"] = true
+			sp.(*jast.Path).Keep = true
+		}
+		s = &jast.Block{Exprs: []jast.Node{sp}}
 	case k == 15:
 		g.tags["array-step"] = true
 		a := &jast.Array{Items: []jast.Node{g.subPath(d)}}
